@@ -13,12 +13,12 @@ for d in sorted(glob.glob('/verif/seeded/*/')):
     rows.append(f"| {name} | {m['property']} | {', '.join(m.get('detected_by_checks', []))} | {'a check missed it; caught after strengthening' if strengthened else 'caught'} | {summ} |")
 intro = f"""### 8.7 Seeded changes from independent sub-agents (`/verif/seeded/<name>/`)
 
-Eight rounds of fresh sub-agents, each given only the text of one property and its own scratch worktree
+Nine rounds of fresh sub-agents, each given only the text of one property and its own scratch worktree
 (round 2 was steered towards timing / fallback / cleanup bugs, round 3 towards boundary and combination
 bugs, rounds 4 and 5 (`R4-`, `R5-`) away from everything earlier rounds had produced,\nround 6 (`R6-`) towards the code that the audit-round fixes added or reworked: rarely seen but legal
 kernel-visible states, error paths taken only after an earlier soft failure, integer widths, second
 occurrences, round 7 (`R7-`) again towards the code of the last audit-wave fixes, with a list of every
-earlier change to avoid; round 8 (`R8-`) the same for the fifth audit wave's fixes). Every change was confirmed by `tools/seeded.sh` in a scratch worktree before being kept: the
+earlier change to avoid; round 8 (`R8-`) the same for the fifth audit wave's fixes; round 9 (`R9-`, six changes on C04 C07 C10 C11 C19 C20: three caught at once, three after adding thread names that are not UTF-8 with an undisturbed-target clause to C04, the word across a misaligned stack pointer to C20, and a blamed thread that is not listed to C01/C10; regression of the 36 earlier seeds on the changed checks: exit 1 throughout). Every change was confirmed by `tools/seeded.sh` in a scratch worktree before being kept: the
 patch applies to `/repo` HEAD, the repository's 42 tests still pass with it, the agent's demonstration passes
 on the clean tree and fails with the patch. **{len(rows)} changes are kept; all are caught now** (last full regression of every kept change against the final machinery and `/repo` 597eae7: 194 check runs, 194 x exit 1). For {missed_first} of them
 at least one check that should have caught the change missed it when first run (recorded in the
